@@ -134,7 +134,7 @@ def make_field(rng, n, n_pol):
 
 
 def set_fs(rng):
-    fs = float(rng.choice([1e9, 1.6e10, 8e10, 1e11, 1e12]))
+    fs = float(rng.choice([1e9, 1.6e10, 8e10, 1e11, 1e12, 1e12, 1e13, 8e13]))
     sps = int(rng.choice([4, 8, 16]))
     with core.quiet():
         if rng.integers(5) == 0:      # a sampling rate that is not an integer multiple of the slot rate: everything follows gv.fs, not sps*R
@@ -151,8 +151,10 @@ def w_dm(ctx, rng, i):
     x = make_field(rng, n, n_pol)
     # keep |D| w_max^2 within a range where the relation checks are meaningful at any fs: scale D in units of 1/w_max^2
     wmax_ps = np.pi * fs * 1e-12
-    D1 = signed_log(rng, -2, 5) if rng.integers(2) else signed_log(rng, -2, 1.5) / wmax_ps ** 2
-    D2 = signed_log(rng, -2, 5) if rng.integers(2) else signed_log(rng, -2, 1.5) / wmax_ps ** 2
+    def draw_D():        # absolute (ps^2), in units of 1/w_max^2, or *thin*: a slice whose largest phase is 1e-7 … 1e-2 rad ("all D": nothing is negligible —
+        k = int(rng.integers(5)) if fs <= 1e12 else int(rng.integers(2, 5))     # a thousand such slices are a slab). Above 1 THz only scaled values: 1e5 ps^2 would be 1e9 rad, whose float64 rounding alone is 1e-7
+        return signed_log(rng, -2, 5) if k < 2 else signed_log(rng, -2, 1.5) / wmax_ps ** 2 if k < 4 else signed_log(rng, -7, -2) / wmax_ps ** 2
+    D1, D2 = draw_D(), draw_D()
     ctx.describe(n=n, n_pol=n_pol, fs=fs, D1=D1, D2=D2)
     d0 = core.digest(x.signal)
     with core.quiet():
@@ -193,7 +195,7 @@ def w_fiber(ctx, rng, i):
     L2 = float(10 ** rng.uniform(-2, 2.3))
     Ltot = L1 + L2
     b2 = signed_log(rng, -2, 1.4) if rng.integers(3) else 0.0
-    if rng.integers(2):
+    if rng.integers(2) or fs > 1e12:
         b2 = b2 / max(1.0, abs(b2) * Ltot * wmax_ps ** 2 / 50)        # keep the accumulated phase moderate at high fs
     b3 = (signed_log(rng, -3, 1) if rng.integers(2) else 0.0)
     b3 = b3 / max(1.0, abs(b3) * Ltot * wmax_ps ** 3 / 300)
